@@ -48,6 +48,21 @@ impl Monitor for C03 {
             hostile(ctx, ev, &sz, "", &mut |ctx, case| {
                 ctx.check(&case, &|c, st| self.judge(c, st));
             });
+            // one construct repeated many times (inputs well beyond 256 characters): well-formed and
+            // defined, so the answer must be Ok
+            for (fam, k, s) in crate::gen::repetitions(ev, crate::gen::rep_cap(&ctx.config)) {
+                if ctx.mine() {
+                    let case = Case::new(ev, "rep", &s, Val::zero(ev)).with_extra(&format!("{} x{}", fam, k));
+                    ctx.check(&case, &|c, st| {
+                        let v = self.judge(c, st);
+                        if let Verdict::Pass { .. } = v {
+                            st.inc("repetitions_accepted");
+                            st.max("max_repetition_count", k as f64);
+                        }
+                        v
+                    });
+                }
+            }
         }
     }
     fn judge(&self, case: &Case, st: &mut Stats) -> Verdict {
@@ -104,6 +119,6 @@ impl Monitor for C03 {
         ]
     }
     fn floors(&self, _t: Tier) -> Vec<(String, u64)> {
-        vec![("reference_accepts".into(), 5_000), ("reference_rejects".into(), 5_000)]
+        vec![("reference_accepts".into(), 5_000), ("reference_rejects".into(), 5_000), ("repetitions_accepted".into(), 2_000)]
     }
 }
